@@ -446,8 +446,8 @@ pub fn inject_site<'a>(module: &mut Module<'a>, func: u32, api: Api, site: &Site
                     it.append_to_tag(t.clone());
                 }
                 if is_func_mode {
-                    // a careful client resets the function-level mode it set (public API)
-                    it.module.functions.unwrap_local(FunctionID(func)).instr_flag.finish_instr();
+                    // a careful client resets the mode it set through the documented call
+                    it.finish_instr();
                 }
             } else if api == Api::IterAt || is_empty_mode {
                 set_mode_at(&mut it, site.mode, loc);
